@@ -484,9 +484,14 @@ class wait_exponential(_WaitStrategyBase):
         self.min = _to_seconds(min)
 
     def __call__(self, attempts: int, *, seed: int | None = None) -> float:
+        try:
+            raw = self.multiplier * self.exp_base**attempts
+        except OverflowError:
+            # float power overflows for large attempt counts; the delay is capped anyway
+            raw = self.max
         return max(
             max(0.0, self.min),
-            min(self.multiplier * self.exp_base**attempts, self.max),
+            min(raw, self.max),
         )
 
 
@@ -566,7 +571,11 @@ class wait_exponential_jitter(_WaitStrategyBase):
         self.jitter = jitter
 
     def __call__(self, attempts: int, *, seed: int | None = None) -> float:
-        base = min(self.initial * self.exp_base**attempts, self.max)
+        try:
+            raw = self.initial * self.exp_base**attempts
+        except OverflowError:
+            raw = self.max
+        base = min(raw, self.max)
         rng = random.Random(seed) if seed is not None else random
         return min(base + rng.uniform(0, self.jitter), self.max)
 
@@ -598,9 +607,13 @@ class wait_random_exponential(_WaitStrategyBase):
 
     def __call__(self, attempts: int, *, seed: int | None = None) -> float:
         rng = random.Random(seed) if seed is not None else random
+        try:
+            raw = self.multiplier * self.exp_base**attempts
+        except OverflowError:
+            raw = self.max
         upper = max(
             max(0.0, self.min),
-            min(self.multiplier * self.exp_base**attempts, self.max),
+            min(raw, self.max),
         )
         return rng.uniform(self.min, upper)
 
